@@ -128,7 +128,11 @@ func (c *Crew) init(ctx context.Context) error {
 	c.previous = make(map[string]string, 8)
 
 	f := func(ctx context.Context, te *TimerEntry) {
-		c.in <- te.Msg
+		// Have the loop do the timer's bookkeeping (and then
+		// process the timer's message).
+		c.in <- func(c *Crew) interface{} {
+			return c.timers.fired(te)
+		}
 	}
 	c.timers = NewTimers(f)
 	c.timers.c = c
@@ -226,14 +230,14 @@ func (c *Crew) SetMachine(ctx context.Context, mid string, src *crew.SpecSource,
 
 		if state == nil {
 			state = DefaultState(nil)
-			state.Bs["timers"] = c.timers.Map
+			state.Bs["timers"] = c.timers.copyMap()
 
 		}
 		if ts, have := state.Bs["timers"]; have {
 			if err := c.timers.withMap(ts); err != nil {
 				return err
 			}
-			m.State.Bs["timers"] = c.timers.Map
+			m.State.Bs["timers"] = c.timers.copyMap()
 			if err := c.timers.Start(ctx); err != nil {
 				return err
 			}
@@ -287,7 +291,10 @@ func (c *Crew) ProcessMsg(ctx context.Context, msg interface{}) (*Result, error)
 		c.Logf("ProcessMsg at %s (%d)", JS(msg), len(pending))
 
 		if f, is := msg.(func(*Crew) interface{}); is {
-			msg = f(c)
+			if msg = f(c); msg == nil {
+				// Say a timer that was canceled just in time.
+				continue
+			}
 		}
 
 		walkeds, err := c.RunMachines(ctx, msg)
